@@ -61,7 +61,7 @@ CHECK = {
          'both roles, depend on that message alone. partial: with a forced message racing another caller the property '
          'is false of the code (finding F05a, proved witness + replay). Every run replays generated SETCLUSTER sequences '
          '(replies, UMCTL GETEPOCH, routing probes) and SETREPL schedules (2-4 OS threads parked at the four scheduling '
-         'points; thorough: all interleavings of three callers for three epoch/force patterns, ~50k schedules) against the model line by line.',
+         'points; thorough: all interleavings of three callers for five epoch/force patterns, ~86k schedules) against the model line by line.',
  'note': 'Trusted: Lean kernel; extractor shape checks; the scheduler harness; fingerprint probes. Not covered: migration '
          'tasks inside SETCLUSTER, replicator task traffic, forced concurrent SETREPL (known finding F05a).',
 }
